@@ -82,7 +82,7 @@ Proof.
   assert (Hib1 : in_block l1) by (eapply same_core_ib; [exact Hs0|]; apply (ob_open text _ _ _ _ _ _ _ _ Hi Hob He0); [lia|exact Hop]).
   rewrite H1, bind_ok.
   eapply safe_bind.
-  - eapply safe_mono; [apply lex_code_safe; split; [exact Hi1|exact Hib1]|intros a Ha; exact Ha|].
+  - eapply safe_mono; [apply lex_code_safeB; split; [exact Hi1|exact Hib1]|intros a Ha; exact Ha|].
     intros l2 [[Hi2 _] He2]. split; [exact Hi2|lia].
   - intros l2 [[[Hi2 Hib2] He2] Hc2]. pose proof (closing_len endt l2 n Hc2 Hn) as Hl2.
     destruct (emitc_spec text typ2 n l2 Hi2 Hl2) as (l3 & H3 & Hi3 & Hb3 & _).
